@@ -43,8 +43,12 @@ class LedgerGen:
         elif x < 0.63 and self.add_ops:
             self.ops.append(f"add {a} {k} {self.val()}")
             self.tags.add("write:add")
-        elif x < 0.78:
+        elif x < 0.74:
             self.ops.append(f"setbal {a} {r.choice([0, 1, 5, 100, 10**20])}")
+        elif x < 0.78:
+            # AddBalance (the delta path); only credits, so that no account is overdrawn
+            self.ops.append(f"addbal {a} {r.choice([1, 5, 100])}")
+            self.tags.add("write:addbal")
         elif x < 0.9:
             self.ops.append(f"setnonce {a} {r.choice([0, 1, 2, 7])}")
         else:
@@ -342,7 +346,7 @@ def mon_ledger(h, obs, prop):
             break
         if k0 == "commit" and (not uncommitted or int(ws[1]) != next_commit):
             break
-        if k0 in ("set", "add", "del", "setbal", "setnonce", "setcode"):
+        if k0 in ("set", "add", "del", "setbal", "addbal", "setnonce", "setcode"):
             unflushed = True
         if k0 == "flush":
             unflushed, uncommitted = False, True
@@ -358,6 +362,10 @@ def mon_ledger(h, obs, prop):
         elif k0 == "setbal":
             ref.journal.append(("bal", ws[1], ref.bal.get(ws[1], 0)))
             ref.bal[ws[1]] = int(ws[2])
+        elif k0 == "addbal":
+            if int(ws[2]) != 0:
+                ref.journal.append(("bal", ws[1], ref.bal.get(ws[1], 0)))
+                ref.bal[ws[1]] = ref.bal.get(ws[1], 0) + int(ws[2])
         elif k0 == "setnonce":
             ref.journal.append(("nonce", ws[1], ref.nonce.get(ws[1], 0)))
             ref.nonce[ws[1]] = int(ws[2])
